@@ -518,9 +518,13 @@ def concrete_term(case, call, prim):
             tables[NAME_CODES[b["param"]]] = b["acc"]
         rows = lib.clist([lib.clist(tables.get(i, [])) for i in range(10)])
         cos.append(f"(mkCO {ps} (fun n => tbl (nth (N.to_nat n) {rows} [])) {RETS.index(ov['ret'])})")
-    acts = (f"(mkActuals {lib.clist(['true'] * len(call['pos']))} false "
-            f"{lib.clist([f'({NAME_CODES[k]}%N, true)' for k, _ in call['kw']])} false false)")
+    star, dstar = call.get("star"), call.get("dstar")
+    acts = (f"(mkActuals {lib.clist(['true'] * len(call['pos']))} {lib.cbool(star is not None)} "
+            f"{lib.clist([f'({NAME_CODES[k]}%N, true)' for k, _ in call['kw']])} {lib.cbool(dstar is not None)} {lib.cbool(dstar is not None)})")
     args = [lib.clist([str(ATOMS.index(m)) for m in members(t)]) for t in call_types(call)]
+    # the star / star-star arguments are numbered after the keywords (Overload.Concrete.bparams_of)
+    args.append(lib.clist([str(ATOMS.index(m)) for m in members(star)]) if star is not None else "[]")
+    args.append(lib.clist([str(ATOMS.index(m)) for m in members(dstar)]) if dstar is not None else "[]")
     return f"resolve_concrete {lib.clist(cos)} {acts} {lib.clist(args)}"
 
 
@@ -703,7 +707,7 @@ def gen_call(rng, overloads, mode):
     return call
 
 
-MODES = ["plain"] * 30 + ["union1"] * 30 + ["any"] * 14 + ["union_any"] * 9 + ["union2"] * 9 + ["anymember"] * 3 + ["star"] * 3 + ["dstar"] * 2
+MODES = ["plain"] * 28 + ["union1"] * 28 + ["any"] * 13 + ["union_any"] * 9 + ["union2"] * 9 + ["anymember"] * 3 + ["star"] * 6 + ["dstar"] * 4
 
 
 def gen_case(rng, ncalls):
@@ -842,7 +846,7 @@ def run(tier: str, replay: str | None = None):
                 continue
             terms.append(model_term(case, call, prim))
             meta.append((ci, ki))
-            if not classify(call)[2] and all(k in NAME_CODES for k, _ in call["kw"]):
+            if all(k in NAME_CODES for k, _ in call["kw"]):
                 terms.append(concrete_term(case, call, prim))
                 meta.append((ci, ki, "concrete"))
     model_ok = not any("build failed" in b for b in proof.broken)
